@@ -258,6 +258,12 @@ def scenario(ctx, rng, j):
                 if e <= b:
                     b = e - 1
         windows.append((b, e))
+    # certificates valid "from the beginning" (begin_ts == 0) in every link:
+    # the clock test still applies to them
+    if not small_t and edge in ('e-1', 'e', 'e+1', 'none') and \
+            rng.random() < 0.15:
+        windows = [(0, e) for b, e in windows]
+        ctx.count('chains_with_begin_zero_everywhere')
     cans = [rng.random() < 0.8 for _ in range(n)]
     if rng.random() < 0.5:
         cans = [True] * (n - 1) + [rng.random() < 0.5]
